@@ -58,6 +58,9 @@ func (h *vEngH) idx(p *PID) string {
 }
 
 func (h *vEngH) token(m any) string {
+	if m == nil {
+		return "nil"
+	}
 	switch v := m.(type) {
 	case vEv:
 		return "e" + strconv.Itoa(v.n)
@@ -188,7 +191,11 @@ func runEngineHistory(t testing.TB, remote bool, ops []string) string {
 					si, _ = strconv.Atoi(parts[1])
 				}
 				k++
-				e.SendWithSender(h.pid(ti), vUser{k}, h.pid(si))
+				var msg any = vUser{k}
+				if k%5 == 0 {
+					msg = nil // every fifth message is a nil message value
+				}
+				e.SendWithSender(h.pid(ti), msg, h.pid(si))
 			case strings.HasPrefix(op, "poi"): // Poison an id: unknown pid => dead letter + ctx done at once
 				i, _ := strconv.Atoi(op[3:])
 				ctx := e.Poison(h.pid(i))
@@ -235,7 +242,7 @@ func TestVerifEngine(t *testing.T) {
 		emit(fmt.Sprintf("corpus%d", i), rem, ops)
 	}
 	r := vgen.NewRng(vgen.Seed())
-	n := vgen.Scale(3000, 60000)
+	n := vgen.Scale(6000, 80000)
 	for i := 0; i < n; i++ {
 		rr := r.Fork()
 		remote := rr.Chance(1, 3)
